@@ -7,6 +7,7 @@ made equal, undefined enum numbers, wrong-length UUIDs, cleared oneofs,
 mismatching version fields).  Every load runs under an alarm."""
 
 import io
+import os
 import signal
 
 from .. import common, ircases, irgen
@@ -287,6 +288,9 @@ def structural_cases(spec, pv):
         m.CopyFrom(base)
         return m
 
+    # every reference made dangling / pointed at a node of every wrong kind
+    for desc, data in c09.fault_cases(spec):
+        yield ("reference:" + desc, data, False)
     n = len(uuid_fields(base))
     for i in range(n):
         for j in range(n):
@@ -434,6 +438,32 @@ def run(ctx):
     for k, b in common.pmap(work_struct, stasks, chunksize=1):
         n_struct += k
         bad += b
+    # the structural faults once more in an interpreter started with -O
+    # (assert statements stripped): rejection must not hinge on an assert
+    n_opt = 0
+    try:
+        import json
+        import subprocess
+        import sys
+
+        outp = os.path.join(common.VERIF, ".stage", "c17_O_%d.json"
+                            % os.getpid())
+        pr = subprocess.run([sys.executable, "-O", "-m", "mc.checks.c17",
+                             ctx.tier, outp], cwd=common.VERIF,
+                            capture_output=True, text=True, timeout=900)
+        if pr.returncode != 0 or not os.path.exists(outp):
+            ctx.notes.append("python -O child failed: %s" % pr.stderr[-300:])
+        else:
+            with open(outp) as f:
+                doc = json.load(f)
+            os.unlink(outp)
+            n_opt = doc["n"]
+            for sig, detail, label, what, hexdata in doc["bad"]:
+                bad.append((sig + ":under-python-O", detail, label,
+                            what + " (python -O)", hexdata))
+    except Exception as e:  # noqa
+        ctx.notes.append("python -O child could not run: %r" % (e,))
+    ctx.extra_cov["structural_faults_under_python_O"] = n_opt
     # unchanged base files must load and be coherent
     for label, data, spec in _FILES:
         r = try_load(data, False)
@@ -482,9 +512,62 @@ def run(ctx):
 def replay(doc):
     from gtirb.version import PROTOBUF_VERSION as PV
 
+    if str(doc.get("signature", "")).endswith(":under-python-O") \
+            and __debug__:
+        # found in an interpreter without assert statements: replay there
+        import json
+        import subprocess
+        import sys
+        import tempfile
+
+        with tempfile.NamedTemporaryFile("w", suffix=".json", delete=False,
+                                         dir=os.path.join(common.VERIF,
+                                                          ".stage")) as f:
+            json.dump(doc, f)
+        try:
+            return subprocess.run([sys.executable, "-O", "-m", "mc.run",
+                                   "--replay", f.name],
+                                  cwd=common.VERIF).returncode
+        finally:
+            os.unlink(f.name)
+
     data = bytes.fromhex(doc["bytes_hex"])
     r = try_load(data, header_must_fail(data, PV)
                  or str(doc.get("fault", "")).startswith(
                      ("message-version", "header-version")))
     print("file %s fault %s -> %r" % (doc.get("file"), doc.get("fault"), r))
     return 1 if r is not None else 0
+
+
+def child_main(argv):
+    """python -O -m mc.checks.c17 <tier> <outfile>: structural faults only,
+    single process"""
+    import json
+
+    from ..run import stage
+
+    stage()
+    from gtirb.version import PROTOBUF_VERSION as PV
+
+    global _FILES
+    tier, outp = argv[0], argv[1]
+    _FILES = base_files(tier)
+    _TIER[0] = tier
+    n = 0
+    bad = []
+    for fi, (label, data, spec) in enumerate(_FILES):
+        if label.endswith("/api"):
+            continue
+        total = sum(1 for _ in structural_cases(spec, PV))
+        k, b = work_struct((fi, 0, total))
+        n += k
+        bad += b
+    with open(outp, "w") as f:
+        json.dump({"n": n, "bad": bad, "optimized": not __debug__}, f)
+    return 0
+
+
+if __name__ == "__main__":
+    import sys
+
+    sys.exit(child_main(sys.argv[1:]))
